@@ -2,7 +2,8 @@
 //! (so that a restart really restarts on the signer's own files), real `KesSignerStandard` over the
 //! fixture's key files, real `AggregatorHttpClient` (-> front -> real aggregator router), the
 //! production signature publisher stack (delayer / retrier). Doubles only for the Cardano node:
-//! chain observer, immutable file observer, digester (all three SHARED with the aggregator), block
+//! the signer's OWN chain observer (kept in step with the world's by the harness, except during a
+//! node-lag window), immutable file observer and digester (both SHARED with the aggregator), block
 //! scanner. The assembly follows mithril-signer/tests/test_extensions/state_machine_tester.rs and
 //! dependency_injection/builder.rs.
 use std::collections::HashMap;
@@ -12,12 +13,15 @@ use std::time::Duration;
 use tokio::sync::RwLock;
 
 use mithril_aggregator_client::AggregatorHttpClient;
-use mithril_cardano_node_chain::{chain_importer::CardanoChainDataImporter, test::double::DumbBlockScanner};
+use mithril_cardano_node_chain::{
+    chain_importer::CardanoChainDataImporter,
+    test::double::{DumbBlockScanner, FakeChainObserver},
+};
 use mithril_cardano_node_internal_database::signable_builder::CardanoDatabaseSignableBuilder;
 use mithril_common::{
     api_version::APIVersionProvider,
     crypto_helper::{KesSigner, KesSignerStandard, ProtocolInitializer},
-    entities::{BlockNumber, Epoch, StakeDistribution},
+    entities::{BlockNumber, Epoch, StakeDistribution, TimePoint},
     signable_builder::{
         CardanoBlocksTransactionsSignableBuilder, CardanoStakeDistributionSignableBuilder, CardanoTransactionsSignableBuilder,
         MithrilSignableBuilderService, MithrilStakeDistributionSignableBuilder, SignableBuilderServiceDependencies,
@@ -74,6 +78,16 @@ pub struct SignerNode {
     pub operational_certificate_path: PathBuf,
     /// the node's block scanner survives a restart of the signer (it is the Cardano node)
     pub block_scanner: Arc<DumbBlockScanner>,
+    /// this signer's OWN Cardano node (chain observer double: epoch, chain point, stake distribution);
+    /// it survives a restart of the signer. The harness copies the world's state into it before the
+    /// signer's ticks, except while `lag_ticks_left > 0`
+    pub observer: Arc<FakeChainObserver>,
+    /// epoch this signer's node reports (as of the last copy)
+    pub node_epoch: u64,
+    /// node-lag window: number of this signer's ticks during which its node still is not brought up to date
+    pub lag_ticks_left: u32,
+    /// world epoch in which the last node-lag window of this signer began
+    pub lagged_in_epoch: Option<u64>,
     pub machine: Option<StateMachine>,
     pub restarts: u64,
 }
@@ -89,6 +103,10 @@ impl SignerNode {
             kes_secret_key_path: f.kes_secret_key_path().ok_or_else(|| anyhow::anyhow!("fixture signer without KES key file"))?.to_path_buf(),
             operational_certificate_path: f.operational_certificate_path().ok_or_else(|| anyhow::anyhow!("fixture signer without operational certificate"))?.to_path_buf(),
             block_scanner: Arc::new(DumbBlockScanner::new()),
+            observer: Arc::new(FakeChainObserver::new(None)),
+            node_epoch: 0,
+            lag_ticks_left: 0,
+            lagged_in_epoch: None,
             machine: None,
             restarts: 0,
         })
@@ -115,6 +133,22 @@ impl SignerNode {
         self.machine = None;
     }
 
+    /// the signer's node catches up with the world: epoch, chain point and stake distribution of the
+    /// world's chain observer are copied into the signer's own
+    pub async fn sync_node(&mut self, world: &World) -> StdResult<()> {
+        let tp = world.chain_observer.current_time_point.read().await.clone();
+        let signers = world.chain_observer.signers.read().await.clone();
+        self.node_epoch = tp.as_ref().map(|t| *t.epoch).ok_or_else(|| anyhow::anyhow!("the world has no time point"))?;
+        self.observer.set_current_time_point(tp).await;
+        self.observer.set_signers(signers).await;
+        Ok(())
+    }
+
+    /// the time point this signer's own node shows (own chain observer, shared immutable file observer)
+    pub async fn time_point(&self, world: &World) -> StdResult<TimePoint> {
+        MithrilTickerService::new(self.observer.clone(), world.immutable_file_observer.clone()).get_current_time_point().await
+    }
+
     /// (re)start the signer process on its own files
     pub async fn start(&mut self, world: &World) -> StdResult<()> {
         self.machine = None;
@@ -122,7 +156,7 @@ impl SignerNode {
         std::fs::create_dir_all(&config.data_stores_directory)?;
         std::fs::create_dir_all(&config.db_directory)?;
         let logger = signer_logger();
-        let machine = build_state_machine(&config, world, self.block_scanner.clone(), self.idx, &self.settings, logger).await?;
+        let machine = build_state_machine(&config, world, self.observer.clone(), self.block_scanner.clone(), self.idx, &self.settings, logger).await?;
         self.machine = Some(machine);
         self.restarts += 1;
         Ok(())
@@ -164,6 +198,7 @@ pub const SQLITE_FILE_CARDANO_TRANSACTION: &str = "cardano-transaction.sqlite3";
 async fn build_state_machine(
     config: &Configuration,
     world: &World,
+    chain_observer: Arc<FakeChainObserver>,
     block_scanner: Arc<DumbBlockScanner>,
     idx: usize,
     settings: &SignerSettings,
@@ -175,7 +210,8 @@ async fn build_state_machine(
         Arc::new(dependencies_builder.build_cardano_tx_sqlite_connection_pool(SQLITE_FILE_CARDANO_TRANSACTION, 1).await?);
     let retention = config.store_retention_limit.map(|l| l as u64);
 
-    let chain_observer = world.chain_observer.clone();
+    // the signer's own node: its ticker, its registration (KES period) and its stake distribution
+    // all come from this observer, not from the aggregator's
     let ticker_service = Arc::new(MithrilTickerService::new(chain_observer.clone(), world.immutable_file_observer.clone()));
     let digester = world.digester.clone();
     let protocol_initializer_store = Arc::new(ProtocolInitializerRepository::new(sqlite_connection.clone(), retention));
